@@ -261,27 +261,39 @@ def reload_v(f: B2, rest_r: bool, rest_w: bool, noflush: bool, L: LT, N: NT, c: 
     return _reload({'v': f}, rest_r, rest_w, noflush, L, N, {'v': None if c_null else c})
 
 
-def reload_n(f: B2, rest_r: bool, rest_w: bool, noflush: bool, L: LT, N: NT, c: int, c_null: bool) -> bool:
+def reload_n(f: B2, rest_r: bool, rest_w: bool, L: LT, N: NT, c: int, c_null: bool) -> bool:
     """
     pre: _pre(L, N, 'n') and LO <= c <= HI
     post: _
     """
-    return _reload({'n': f}, rest_r, rest_w, noflush, L, N, {'n': None if c_null else c})
+    return _reload({'n': f}, rest_r, rest_w, False, L, N, {'n': None if c_null else c})
 
 
-def _pending_ref(f, rest_w, noflush):
-    """Known region (checks/c21.py): the reference was assigned without having been read, is not yet flushed, and its row is
-    re-fetched."""
-    return noflush and f[1] and not f[0]
-
-
-def reload_g(f: B2, rest_r: bool, rest_w: bool, noflush: bool, L: LT, N: NT, c: int) -> bool:
+def reload_n_noflush(f: B2, rest_r: bool, rest_w: bool, L: LT, N: NT, c: int, c_null: bool) -> bool:
     """
-    pre: _pre(L, N, 'g') and 0 <= c <= 2
-    pre: not _pending_ref(f, rest_w, noflush)
+    pre: _pre(L, N, 'n') and LO <= c <= HI
     post: _
     """
-    return _reload({'g': f}, rest_r, rest_w, noflush, L, N, {'g': (None, LOADED_G, NEW_G)[c]})
+    return _reload({'n': f}, rest_r, rest_w, True, L, N, {'n': None if c_null else c})
+
+
+def reload_g(f: B2, rest_r: bool, rest_w: bool, L: LT, N: NT, c: int) -> bool:
+    """
+    pre: _pre(L, N, 'g') and 0 <= c <= 2
+    post: _
+    """
+    return _reload({'g': f}, rest_r, rest_w, False, L, N, {'g': (None, LOADED_G, NEW_G)[c]})
+
+
+def reload_g_noflush(f: B2, rest_r: bool, rest_w: bool, L: LT, N: NT, c: int) -> bool:
+    """
+    pre: _pre(L, N, 'g') and 0 <= c <= 2
+    pre: not (f[1] and not f[0])
+    post: _
+    """
+    # excluded here and asserted strictly in reload_g_pending (known region, checks/c21.py): the reference was assigned
+    # without having been read, is not flushed yet, and its row is re-fetched
+    return _reload({'g': f}, rest_r, rest_w, True, L, N, {'g': (None, LOADED_G, NEW_G)[c]})
 
 
 def reload_g_pending(rest_r: bool, rest_w: bool, L: LT, N: NT, c: int) -> bool:
@@ -292,21 +304,54 @@ def reload_g_pending(rest_r: bool, rest_w: bool, L: LT, N: NT, c: int) -> bool:
     return _reload({'g': (False, True)}, rest_r, rest_w, True, L, N, {'g': (None, LOADED_G, NEW_G)[c]})
 
 
-def reload_f(f: B2, rest_r: bool, rest_w: bool, noflush: bool, L: LT, N: NT, lf: float, nf: float, c: float) -> bool:
-    """
-    pre: _pre(L, N) and math.isfinite(lf) and math.isfinite(nf) and math.isfinite(c)
-    pre: -1e9 <= lf <= 1e9 and -1e9 <= c <= 1e9 and -1e9 <= nf <= 1e9
-    post: _
-    """
-    return _reload({'f': f}, rest_r, rest_w, noflush, L, N, {'f': c}, lf=lf, nf=nf)
+F_LOADED, F_ASSIGNED = 1.5, -2.5
+F_REFETCHED = (1.5, 1.5000000000000002, 1.50000000000003, -2.5, -2.5000000000000004, 0.0) + ((-2.4999999999999, 1e300) if FULL else ())
 
 
-def reload_two(fa: B2, fn: B2, noflush: bool, L: LT, N: NT, ca: int, cn: int, cn_null: bool) -> bool:
+def reload_f(f: B2, rest_r: bool, rest_w: bool, L: LT, N: NT, k: int) -> bool:
     """
-    pre: _pre(L, N, 'n') and LO <= ca <= HI and LO <= cn <= HI
+    pre: _pre(L, N) and 0 <= k < len(F_REFETCHED)
     post: _
     """
-    return _reload({'a': fa, 'n': fn}, False, False, noflush, L, N, {'a': ca, 'n': None if cn_null else cn})
+    return _reload({'f': f}, rest_r, rest_w, False, L, N, {'f': _pick(k)}, lf=F_LOADED, nf=F_ASSIGNED)
+
+
+def reload_f_noflush(f: B2, rest_r: bool, rest_w: bool, L: LT, N: NT, k: int) -> bool:
+    """
+    pre: _pre(L, N) and 0 <= k < len(F_REFETCHED)
+    post: _
+    """
+    # floats are a FINITE family here (loaded 1.5, assigned -2.5, re-fetched: equal / one ulp away / just outside the relative
+    # tolerance 1e-14 of either, 0.0, huge): RealConverter.dbvals_equal divides by max(|old|, |new|); with a symbolic float that
+    # is a non-linear real query which z3 does not answer (and CrossHair models floats as reals, not IEEE doubles)
+    return _reload({'f': f}, rest_r, rest_w, True, L, N, {'f': _pick(k)}, lf=F_LOADED, nf=F_ASSIGNED)
+
+
+def _pick(k):
+    """F_REFETCHED[k] as a concrete float (indexing a tuple with a symbolic int would build a symbolic float)."""
+    for i, v in enumerate(F_REFETCHED):
+        if k == i: return v
+    return F_REFETCHED[0]
+
+
+def _pre_two(L, N):
+    return FULL or (L[3] and not N[3])
+
+
+def reload_two(fa: B2, fn: B2, L: LT, N: NT, ca: int, cn: int, cn_null: bool) -> bool:
+    """
+    pre: _pre(L, N, 'n') and _pre_two(L, N) and LO <= ca <= HI and LO <= cn <= HI
+    post: _
+    """
+    return _reload({'a': fa, 'n': fn}, False, False, False, L, N, {'a': ca, 'n': None if cn_null else cn})
+
+
+def reload_two_noflush(fa: B2, fn: B2, L: LT, N: NT, ca: int, cn: int, cn_null: bool) -> bool:
+    """
+    pre: _pre(L, N, 'n') and _pre_two(L, N) and LO <= ca <= HI and LO <= cn <= HI
+    post: _
+    """
+    return _reload({'a': fa, 'n': fn}, False, False, True, L, N, {'a': ca, 'n': None if cn_null else cn})
 
 
 # ------------------------------------------------------------------------------------------------ family 2
@@ -390,7 +435,8 @@ def o2o_none_then_linked(how: int, read_qp: bool) -> bool:
     return _o2o(how, False, read_qp, 0)
 
 
-RELOAD = ['reload_a', 'reload_f', 'reload_x', 'reload_v', 'reload_n', 'reload_g', 'reload_g_pending', 'reload_two']
+RELOAD = ['reload_a', 'reload_f', 'reload_f_noflush', 'reload_x', 'reload_v', 'reload_n', 'reload_n_noflush', 'reload_g', 'reload_g_noflush', 'reload_g_pending',
+          'reload_two', 'reload_two_noflush']
 LINKS = ['o2o_relink_tracked', 'o2o_relink_untracked', 'o2o_none_then_linked']
 HARNESSES = RELOAD + LINKS
 
